@@ -10,6 +10,14 @@
 #ifndef MYTH_VERIF_H_
 #define MYTH_VERIF_H_
 
+/* point ids */
+enum {
+  MYTH_VP_TLS_NODE_ALLOC = 100,  /* a = tree, b = node, v = size */
+  MYTH_VP_TLS_NODE_FREE  = 101,  /* a = tree, b = node */
+  MYTH_VP_TLS_KEY_CAS_ALLOC = 102, /* before the CAS of key alloc; a = allocator, b = entry */
+  MYTH_VP_TLS_KEY_CAS_DEALLOC = 103 /* before the CAS of key dealloc */
+};
+
 #ifdef MYTH_VERIF
 
 #ifdef __cplusplus
